@@ -241,6 +241,41 @@ Proof.
 Qed.
 Print Assumptions C05_inline_cells_den.
 
+(* ... and conversely: after inline_cells nothing has a value it did not have before *)
+Theorem C05_inline_cells_den_conv :
+  forall (T surf P : Type) (sense : surf -> P -> bool) fuel num den (s : state T surf) cells',
+  inline_cells T fuel num den (s_cells s) = Ok cells' ->
+  forall p e b, Den T surf P sense (set_cells T surf s cells') p e b -> Den T surf P sense s p e b.
+Proof. exact inline_cells_den_conv. Qed.
+Print Assumptions C05_inline_cells_den_conv.
+
+(* THE CHAIN of construct_volume_t4, from the table of the parsed cell cards [s0] (no CellRef yet,
+   counters fresh, caches empty, no provenance) to the table whose level-0 cells are converted:
+   TRCL loop over every cell, FILL loop, inline_cells with any threshold.  The statement is about
+   the deck AS WRITTEN (LocW: a cell's TRCL moves it inside its universe; frame: an explicit
+   fill transformation places the filling universe, else the container's TRCL): for every
+   level-0 cell with a FILL, the returned cells correspond one-to-one and in order to the
+   descents below it; each has no FILL left, the descent's provenance, the leaf's material and
+   density, at every point the exact value of the descent, and is false outside the container
+   cell; every located descent is among them, its cell is true at the point, and when the
+   universes (as written) are partitions the cell of every other descent that has a value is
+   false there. *)
+Theorem C05_pipeline_located :
+  forall (T surf P : Type) (tr_empty : T -> bool) (teqb : T -> T -> bool)
+         (tr_surf : T -> surf -> surf) (inv : T -> P -> P) (sense : surf -> P -> bool),
+  sense_law tr_surf inv sense -> key_law tr_empty teqb inv ->
+  forall fuel cf ifd ifg num den (s0 s1 s2 : state T surf) rs cells3,
+  fresh_ok T surf s0 -> s_cache s0 = [] -> NoDup (map fst (s_cells s0)) -> all_ref_free T surf s0 ->
+  (forall c cl, dget c (s_cells s0) = Some cl -> c_orig cl = []) ->
+  trcl_phase T surf tr_empty teqb tr_surf fuel (map fst (s_cells s0)) s0 = Ok s1 ->
+  fill_phase T surf tr_empty teqb tr_surf fuel cf ifd ifg s1 = Ok (rs, s2) ->
+  inline_cells T fuel num den (s_cells s2) = Ok cells3 ->
+  Forall2 (OutcomeW T surf P tr_empty inv sense s0 (by_universe (s_cells s0))
+                    (set_cells T surf s2 cells3))
+          (fill_keys (s_cells s0)) rs.
+Proof. exact pipeline_located. Qed.
+Print Assumptions C05_pipeline_located.
+
 (* which transformation a FILL / *FILL / TRCL / *TRCL keyword yields (tokens abstract): whenever
    at least one number is written - a TR number whose card is not empty, three numbers even if
    all zero, or more - the result is never the empty tuple, so pot_fill's truthiness test takes
@@ -277,4 +312,18 @@ Proof.
   split; [exact x_sense_tr|]. split; [exact x_teqb_sound|]. split; [exact ex_fresh|].
   split; [reflexivity|]. split; [exact ex_orig_empty|]. split; [exact ex_partition|].
   split; [exact ex_located|]. exact ex_run.
+Qed.
+
+(* non-vacuity of the chain theorem on the same deck read as written *)
+Example C05_example_chain :
+  NoDup (map fst (s_cells ex_state)) /\ all_ref_free Z sterm ex_state /\
+  LocW Z sterm Z x_empty x_inv x_sense ex_state (by_universe (s_cells ex_state)) 1 9 [1; 11; 20] true /\
+  exists s1 rs s2 cells3,
+    x_trcl_phase 5 (map fst (s_cells ex_state)) ex_state = Ok s1 /\
+    x_fill_phase 5 5 false false s1 = Ok (rs, s2) /\
+    inline_cells Z 9 1 1 (s_cells s2) = Ok cells3 /\
+    rs = [[27; 31; 34]] /\
+    option_map (@c_orig Z) (dget 31 cells3) = Some (prov [1; 11; 20]).
+Proof.
+  split; [exact ex_nodup|]. split; [exact ex_ref_free|]. split; [exact ex_locatedW | exact ex_chain].
 Qed.
